@@ -31,14 +31,11 @@ NULL_INTOLERANT = {
 }
 OUT_OF_SCOPE_SUFFIX = ("_repr",)
 OUT_OF_SCOPE = ("module_init", "init_persist_type", "init_tree_type", "init_type_with_meta_base")
-RAW = ("malloc", "realloc", "free")
+RAW = ("malloc", "realloc")     # free() cannot fail: its discipline is FREE-DISC, at every site
 # who may call the raw allocator (confirmed by reading)
 RAW_ALLOWED = {
     "malloc": {"BTree_Malloc", "BTree_Realloc", "sort_int_nodups"},
     "realloc": {"BTree_Realloc"},
-    "free": {"Bucket_grow", "_BTree_clear", "_bucket_clear", "_bucket_set",
-             "bucket_split", "sort_int_nodups", "_bucket_setstate", "_set_setstate",
-             "bucket_fromBytes"},
 }
 
 
